@@ -11,6 +11,7 @@ package main
 // inlined; the call/return matching of paths is exact.
 
 import (
+	"go/constant"
 	"go/token"
 	"go/types"
 	"sort"
@@ -47,6 +48,10 @@ type c14Pt struct {
 	ctx *c14Ctx
 	b   *ssa.BasicBlock
 	i   int
+	// the inlined call that returned most recently on this path and what is
+	// known about the error it returned (prunes the caller's `err != nil` test)
+	errOf *ssa.Call
+	errSt NilStatus
 }
 
 // c14NewView builds the view of root; expand decides which static callees are
@@ -242,13 +247,13 @@ func (v *c14View) CallsTo(names ...string) []ssa.CallInstruction {
 // ---------- paths ----------
 
 func (v *c14View) entry() []c14Pt {
-	return []c14Pt{{v.ctxs[0], v.Root.Blocks[0], 0}}
+	return []c14Pt{{ctx: v.ctxs[0], b: v.Root.Blocks[0]}}
 }
 
 func (v *c14View) after(in ssa.Instruction) []c14Pt {
 	var out []c14Pt
 	for _, cx := range v.byFn[in.Parent()] {
-		out = append(out, c14Pt{cx, in.Block(), instrIndex(in) + 1})
+		out = append(out, c14Pt{ctx: cx, b: in.Block(), i: instrIndex(in) + 1})
 	}
 	return out
 }
@@ -256,7 +261,7 @@ func (v *c14View) after(in ssa.Instruction) []c14Pt {
 func (v *c14View) atBlock(b *ssa.BasicBlock) []c14Pt {
 	var out []c14Pt
 	for _, cx := range v.byFn[b.Parent()] {
-		out = append(out, c14Pt{cx, b, 0})
+		out = append(out, c14Pt{ctx: cx, b: b})
 	}
 	return out
 }
@@ -288,7 +293,7 @@ func (v *c14View) walk(starts []c14Pt, target func(ssa.Instruction) bool, cu *cu
 			switch x := in.(type) {
 			case *ssa.Call:
 				if k := pt.ctx.kids[x]; k != nil {
-					stack = append(stack, c14Pt{k, k.fn.Blocks[0], 0})
+					stack = append(stack, c14Pt{ctx: k, b: k.fn.Blocks[0]})
 					done = true
 				}
 			case *ssa.RunDefers:
@@ -315,7 +320,13 @@ func (v *c14View) walk(starts []c14Pt, target func(ssa.Instruction) bool, cu *cu
 					stack = append(stack, v.deferChain(par, pt.ctx.at, next)...)
 				default:
 					s := pt.ctx.site.(*ssa.Call)
-					stack = append(stack, c14Pt{pt.ctx.parent, s.Block(), instrIndex(s) + 1})
+					np := c14Pt{ctx: pt.ctx.parent, b: s.Block(), i: instrIndex(s) + 1}
+					if !pt.ctx.virtual {
+						if st := c14RetErrStatus(x); st != MaybeNil {
+							np.errOf, np.errSt = s, st
+						}
+					}
+					stack = append(stack, np)
 				}
 				done = true
 			case *ssa.Panic:
@@ -325,11 +336,18 @@ func (v *c14View) walk(starts []c14Pt, target func(ssa.Instruction) bool, cu *cu
 		if done {
 			continue
 		}
-		for _, s := range b.Succs {
+		only := v.constBranch(pt.ctx, b)
+		if only < 0 && pt.errOf != nil {
+			only = c14ErrBranch(b, pt.errOf, pt.errSt)
+		}
+		for i, s := range b.Succs {
+			if only >= 0 && i != only {
+				continue // the branch is decided by a constant argument / by the error just returned
+			}
 			if cu != nil && cu.edges[Edge{b, s}] {
 				continue
 			}
-			stack = append(stack, c14Pt{pt.ctx, s, 0})
+			stack = append(stack, c14Pt{ctx: pt.ctx, b: s, errOf: pt.errOf, errSt: pt.errSt})
 		}
 	}
 	return false, nil
@@ -344,12 +362,138 @@ func (v *c14View) deferChain(cx *c14Ctx, r *ssa.RunDefers, from int) []c14Pt {
 	var out []c14Pt
 	for j := from; j < len(ds); j++ {
 		k := ds[j]
-		out = append(out, c14Pt{k, k.fn.Blocks[0], 0})
+		out = append(out, c14Pt{ctx: k, b: k.fn.Blocks[0]})
 		if cx.dmust[k] {
 			return out
 		}
 	}
-	return append(out, c14Pt{cx, r.Block(), instrIndex(r) + 1})
+	return append(out, c14Pt{ctx: cx, b: r.Block(), i: instrIndex(r) + 1})
+}
+
+// constBranch: block b of cx.fn ends in `if p` (or `if !p`) with p a boolean
+// parameter that this call site binds to a constant: returns the index of the
+// only feasible successor, else -1.
+func (v *c14View) constBranch(cx *c14Ctx, b *ssa.BasicBlock) int {
+	if cx.site == nil || cx.virtual || len(b.Instrs) == 0 {
+		return -1
+	}
+	ifi, ok := b.Instrs[len(b.Instrs)-1].(*ssa.If)
+	if !ok {
+		return -1
+	}
+	cond, neg := ifi.Cond, false
+	for {
+		u, isNot := cond.(*ssa.UnOp)
+		if !isNot || u.Op != token.NOT {
+			break
+		}
+		cond, neg = u.X, !neg
+	}
+	p, ok := cond.(*ssa.Parameter)
+	if !ok {
+		return -1
+	}
+	for i, q := range cx.fn.Params {
+		if q != p || i >= len(cx.site.Common().Args) {
+			continue
+		}
+		k, isK := cx.site.Common().Args[i].(*ssa.Const)
+		if !isK || k.Value == nil || k.Value.Kind() != constant.Bool {
+			return -1
+		}
+		val := constant.BoolVal(k.Value) != neg
+		if val {
+			return 0
+		}
+		return 1
+	}
+	return -1
+}
+
+// c14RetErrStatus: what is known about the error result of this Return:
+// IsNil (literal nil), NonNil (constructed error, or returned under its own
+// `!= nil` test), MaybeNil otherwise.
+func c14RetErrStatus(ret *ssa.Return) NilStatus {
+	f := ret.Parent()
+	idx := ErrResultIndex(f.Signature)
+	if idx < 0 || idx >= len(ret.Results) {
+		return MaybeNil
+	}
+	rs := Roots(ret.Results[idx])
+	if len(rs) == 0 {
+		return MaybeNil
+	}
+	allNil, allNon := true, true
+	for _, r := range rs {
+		if isNilConst(r) {
+			allNon = false
+			continue
+		}
+		allNil = false
+		if ErrNilStatus(r, 0) == NonNil {
+			continue
+		}
+		_, nn, _ := NilTests(f, Aliases(r))
+		if len(nn) > 0 && MustPass(ret, newCut().Edges(nn...)) {
+			continue
+		}
+		allNon = false
+	}
+	switch {
+	case allNil:
+		return IsNil
+	case allNon:
+		return NonNil
+	}
+	return MaybeNil
+}
+
+// c14ErrBranch: block b ends in a nil test of the error returned by call;
+// returns the index of the only feasible successor given its status, else -1.
+func c14ErrBranch(b *ssa.BasicBlock, call *ssa.Call, st NilStatus) int {
+	if len(b.Instrs) == 0 || b.Parent() != call.Parent() {
+		return -1
+	}
+	ifi, ok := b.Instrs[len(b.Instrs)-1].(*ssa.If)
+	if !ok {
+		return -1
+	}
+	e := ErrOf(call)
+	if e == nil {
+		return -1
+	}
+	cond, t, f := ifEdges(ifi)
+	bo, ok := cond.(*ssa.BinOp)
+	if !ok || (bo.Op != token.EQL && bo.Op != token.NEQ) {
+		return -1
+	}
+	var x ssa.Value
+	if isNilConst(bo.Y) {
+		x = bo.X
+	} else if isNilConst(bo.X) {
+		x = bo.Y
+	} else {
+		return -1
+	}
+	// x must denote exactly this call's error
+	rs := Roots(x)
+	if len(rs) != 1 || rs[0] != e {
+		return -1
+	}
+	nilEdge, nonNilEdge := t, f
+	if bo.Op == token.NEQ {
+		nilEdge, nonNilEdge = f, t
+	}
+	want := nilEdge
+	if st == NonNil {
+		want = nonNilEdge
+	}
+	for i, s := range b.Succs {
+		if s == want.To && want.From == b {
+			return i
+		}
+	}
+	return -1
 }
 
 func c14Is(to ssa.Instruction) func(ssa.Instruction) bool {
@@ -480,7 +624,10 @@ func (v *c14View) leaves(val ssa.Value, intoCalls bool) []ssa.Value {
 				if u.Op == token.MUL {
 					if fv, ok := u.X.(*ssa.FreeVar); ok {
 						if cell := c14FreeVarAlloc(fv); cell != nil {
-							sts := c14CellStores(cell)
+							sts := c14DeferredCellStores(fv, cell)
+							if sts == nil {
+								sts = c14CellStores(cell)
+							}
 							if len(sts) > 0 {
 								for _, s := range sts {
 									rec(s.Val, depth+1)
@@ -732,4 +879,70 @@ func c14FuncTarget(v ssa.Value) (fn *ssa.Function, recv ssa.Value, mc *ssa.MakeC
 		return f, nil, u
 	}
 	return nil, nil, nil
+}
+
+// c14DeferredCellStores: fv is a captured variable of a function literal that
+// is used only as a deferred call in its parent.  The variable then denotes,
+// inside the literal, the stores that reach the exits at which the deferred
+// call runs (plus stores made by closures).  Returns nil if the literal is not
+// of that kind.
+func c14DeferredCellStores(fv *ssa.FreeVar, cell *ssa.Alloc) []*ssa.Store {
+	lit := fv.Parent()
+	par := lit.Parent()
+	if par == nil || cell.Parent() != par {
+		return nil
+	}
+	var defers []*ssa.Defer
+	okAll := true
+	AllInstrs(par, func(in ssa.Instruction) {
+		mc, ok := in.(*ssa.MakeClosure)
+		if !ok || mc.Fn != lit {
+			return
+		}
+		for _, r := range *mc.Referrers() {
+			switch d := r.(type) {
+			case *ssa.Defer:
+				defers = append(defers, d)
+			case *ssa.DebugRef:
+			default:
+				okAll = false
+			}
+		}
+	})
+	if !okAll || len(defers) == 0 {
+		return nil
+	}
+	seen := map[*ssa.Store]bool{}
+	var out []*ssa.Store
+	AllInstrs(par, func(in ssa.Instruction) {
+		r, ok := in.(*ssa.RunDefers)
+		if !ok {
+			return
+		}
+		runs := false
+		for _, d := range defers {
+			if Reachable(d, r) {
+				runs = true
+			}
+		}
+		if !runs {
+			return
+		}
+		for _, st := range ReachingStores(cell, r) {
+			if st != nil && !seen[st] {
+				seen[st] = true
+				out = append(out, st)
+			}
+		}
+	})
+	for _, st := range c14CellStores(cell) {
+		if st.Parent() != par && !seen[st] {
+			seen[st] = true
+			out = append(out, st)
+		}
+	}
+	if out == nil {
+		out = []*ssa.Store{}
+	}
+	return out
 }
